@@ -242,8 +242,13 @@ func genC10(c *ctx) {
 	r := c.r
 	// request well-formedness: every presence pattern of the hierarchy fields x feature value
 	for bits := 0; bits < 1<<10; bits++ {
-		for _, feat := range []string{"litefs-cloud", "wg"} {
+		for fi, feat := range []string{"litefs-cloud", "wg", "litefs-cloud"} {
 			if bits&4 == 0 && feat == "wg" {
+				continue
+			}
+			// third round: the command is present but EMPTY (non-nil empty slice) - only where a command is named
+			emptyCmd := fi == 2
+			if emptyCmd && bits&256 == 0 {
 				continue
 			}
 			a := m.Acc{Kind: "AFlyio", Action: 1, Now: m.T{Sec: 1700000000}}
@@ -273,6 +278,9 @@ func genC10(c *ctx) {
 			}
 			if bits&256 != 0 {
 				a.Command = &[]string{"ls"}
+				if emptyCmd {
+					a.Command = &[]string{}
+				}
 			}
 			if bits&512 != 0 {
 				a.MachineFeature = pS("mf")
